@@ -59,10 +59,10 @@ def _fmt(t, join=', ', empty=None):
     return render
 
 
-STMTS = ['a = 1', 'b()', 'pass', 'c += 2', 'del d', 'e: int = 3', 'import f', 'assert g', 'h = i = 4', 'global_ = 5']
-EXPRS = ['a', 'b', 'c.d', 'e[0]', 'f()', '1', "'s'", '(g, h)', '[i]', 'j + k', '-m', 'n if o else p']
-NAMES = ['a', 'b', 'c', 'd', 'e', 'f', 'g']
-TGTS = ['a', 'b', 'c.d', 'e[0]', '(g, h)', '[i]', 'j']
+STMTS = ['a = 1', 'b()', 'é = "ñ"', 'pass', 'c += 2', 'del d', 'e: int = 3', 'import f', 'assert g', 'h = i = 4', 'global_ = 5']
+EXPRS = ['a', 'é', 'c.d', 'e[0]', 'f()', '1', "'ß日'", '(g, h)', '[i]', 'j + k', '-m', 'n if o else p', 'b']
+NAMES = ['a', 'é', 'c', '日本', 'e', 'ñu', 'g', 'b']
+TGTS = ['a', 'é', 'c.d', 'e[0]', '(g, h)', '[i]', 'j', 'b']
 PATS = ['a', '1', "'s'", 'None', '[b, c]', '{1: d}', 'E()', 'f.g', '_']
 ORPATS = ['1', "'s'", 'None', '[b, c]', 'E()', 'f.g', '2', '-3']
 B0 = lambda t: t.body[0]
@@ -518,6 +518,11 @@ def run_family_case(arg):
                     # which part differs: the field or the rest
                     rec['fail'] = 'structure'
                     rec['detail'] = _first_diff(got, exp)
+                elif tsrc == src:
+                    d = _source_check(root, exp, fam)       # plain layout: the source must say the same as the tree
+                    if d:
+                        rec['fail'] = 'source'
+                        rec['detail'] = d
             except _Skip:
                 continue
             except NotImplementedError as ex:
@@ -542,6 +547,11 @@ def _exec_entries(fam, src, exp, entries, base):
             if got != exp:
                 rec['fail'] = 'structure'
                 rec['detail'] = _first_diff(got, exp)
+            else:
+                d = _source_check(root, exp, fam)
+                if d:
+                    rec['fail'] = 'source'
+                    rec['detail'] = d
         except _Skip:
             continue
         except NotImplementedError as ex:
@@ -619,6 +629,168 @@ def run_form_product_case(fi):
                                   bare=True)
             out += _exec_entries(fam, src, exp, E, base)
     return out
+
+
+# ---- refused requests must leave everything as it was ----------------------------------------------------------------------
+
+_ARGS_SHAPES = ['a, /, b', 'a, *, k', 'a, /, b, *, k=1, **kw', '*v, k', 'a=1, /, b=2, *, k', 'a, b=1, *v, k, j=2, **kw', 'a, /', '*, k, j=2',
+                'a, b', 'a, /, b=1, *v']
+_ARGS_CODES = ['*w', '**kw2', 'x', 'x=1', 'x, /', '*, y', 'x, /, y, *, z', '*w, y', 'x, **kw2', '$$']
+_CALL_CODES = ['x', '*x', 'x=9', '**x', 'x, y=1', '**x, *y', '$$']
+
+
+def _del_last_argument(a):
+    """pure `ast`: what `del arguments._all[-1]` means"""
+    if a.kwarg:
+        a.kwarg = None
+    elif a.kwonlyargs:
+        a.kwonlyargs.pop()
+        a.kw_defaults.pop()
+    elif a.vararg:
+        a.vararg = None
+    elif a.args or a.posonlyargs:
+        (a.args or a.posonlyargs).pop()
+        if a.defaults:
+            a.defaults.pop()
+
+
+def _del_last_arglike(node, ef):
+    both = sorted(getattr(node, ef) + node.keywords, key=lambda x: (x.lineno, x.col_offset))
+    if both:
+        last = both[-1]
+        (getattr(node, ef) if last in getattr(node, ef) else node.keywords).remove(last)
+
+
+def _after_refusal(root, node_of, src, orig_dump, follow, follow_exp):
+    """after a refused request: source and tree as before (full dump, tree == parse of source) and a following valid edit
+    behaves as on a fresh tree; returns (class, detail) or None"""
+    if root.src != src:
+        return 'refusal-changed-source', f'source after the refused request: {root.src[:200]!r}'
+    got = ast.dump(root.a)
+    if got != orig_dump:
+        return 'refusal-changed-tree', 'tree after the refused request differs from the parse of its (unchanged) source: ' + _first_diff(got, orig_dump)
+    try:
+        follow(node_of(root))
+    except Exception as ex:
+        return 'followup-raised:' + type(ex).__name__, f'a valid edit after the refused request raised: {str(ex)[:160]}'
+    got = ast.dump(root.a)
+    if got != follow_exp:
+        return 'followup-structure', 'a valid edit after the refused request gave: ' + _first_diff(got, follow_exp)
+    d = _source_check(root, follow_exp)
+    if d:
+        return 'followup-source', d
+    return None
+
+
+def run_refusal_case(arg):
+    """Deliberately refused (or possibly refused) requests.  kind 'args': every marker shape of `arguments` (`/`, bare `*`,
+    *args, kw-only with/without defaults, **kw) in def / async def / lambda x every position x new code of every argument
+    kind incl. invalid orderings and garbage; kind 'call': interleaved Call / ClassDef arguments likewise; kind 'fam': every
+    family with unparsable code.  If the request raises: source and full tree dump unchanged and a following valid edit
+    (delete the last element / a fixed valid put) gives the expected tree and source.  If it is carried out: the tree must
+    equal the parse of the new source."""
+    kind, i = arg
+    out = []
+
+    def run(famname, src, node_of, field, entries, follow, follow_exp, extra):
+        orig = ast.dump(ast.parse(src))
+        for name, fn in entries:
+            rec = {'fam': famname, 'tag': 'refusal', 'op': name, 'sigop': name.split('(')[0], 'src': src, 'new': extra, 'a': extra.get('s'), 'b': extra.get('e'),
+                   'layout': False, 'refusal_args': [kind, i]}
+            root = _fst(src)
+            try:
+                fn(node_of(root))
+            except Exception as ex:
+                rec['refused'] = type(ex).__name__ + ': ' + str(ex)[:60]
+                r = _after_refusal(root, node_of, src, orig, follow, follow_exp)
+                if r:
+                    rec['fail'], rec['detail'] = r[0], f'request refused with {rec["refused"]!r}; ' + r[1]
+            else:
+                try:
+                    t = ast.dump(ast.parse(root.src))
+                    if t != ast.dump(root.a):
+                        rec['fail'], rec['detail'] = 'source', f'carried out, but the tree is not the parse of the source {root.src[:120]!r}: ' + _first_diff(ast.dump(root.a), t)
+                except SyntaxError as ex:
+                    rec['fail'], rec['detail'] = 'source', f'carried out, but the source is not valid Python: {root.src[:160]!r} ({ex.msg})'
+            out.append(rec)
+
+    if kind == 'args':
+        shape = _ARGS_SHAPES[i]
+        for wrap, find in (('def f({X}): pass', lambda t: t.body[0].args), ('async def f({X}): pass', lambda t: t.body[0].args),
+                           ('x = lambda {X}: 0', lambda t: t.body[0].value.args)):
+            src = wrap.replace('{X}', shape)
+            tree = ast.parse(src)
+            a = find(tree)
+            n = len(a.posonlyargs) + len(a.args) + bool(a.vararg) + len(a.kwonlyargs) + bool(a.kwarg)
+            _del_last_argument(a)
+            follow_exp = ast.dump(tree)
+            node_of = lambda root, find=find: find(root.a).f
+            follow = lambda nd: nd._all.__delitem__(-1)
+            for code in _ARGS_CODES:
+                for s_ in range(n + 1):
+                    for e_ in (s_, s_ + 1):
+                        if e_ > n:
+                            continue
+                        E = [('put_slice', lambda nd, c=code, s_=s_, e_=e_: nd.put_slice(c, s_, e_, '_all')),
+                             ('view[a:b]=', lambda nd, c=code, s_=s_, e_=e_: nd._all.__setitem__(slice(s_, e_), c))]
+                        if s_ == e_:
+                            E.append(('insert', lambda nd, c=code, s_=s_: nd._all.insert(c, s_, one=False)))
+                        else:
+                            E.append(('view[a:b].replace', lambda nd, c=code, s_=s_, e_=e_: nd._all[s_:e_].replace(c, one=False)))
+                        run('arguments._all', src, node_of, '_all', E, follow, follow_exp, {'code': code, 's': s_, 'e': e_})
+    elif kind == 'call':
+        old = _ARGLIKE_SHAPES[i]
+        for ck, wrap, find, vf, ef in (('Call', 'f({X})', BV, '_args', 'args'), ('ClassDef', 'class C({X}): pass', B0, '_bases', 'bases')):
+            for inner in (', '.join(old), _mixed_join(old)):
+                src = wrap.replace('{X}', inner)
+                tree = ast.parse(src)
+                _del_last_arglike(find(tree), ef)
+                follow_exp = ast.dump(tree)
+                n = len(old)
+                node_of = lambda root, find=find: find(root.a).f
+                follow = lambda nd, vf=vf: getattr(nd, vf).__delitem__(-1)
+                for code in _CALL_CODES:
+                    for s_ in range(n + 1):
+                        for e_ in (s_, s_ + 1):
+                            if e_ > n:
+                                continue
+                            E = [('put_slice', lambda nd, c=code, s_=s_, e_=e_, vf=vf: nd.put_slice(c, s_, e_, vf)),
+                                 ('view[a:b]=', lambda nd, c=code, s_=s_, e_=e_, vf=vf: getattr(nd, vf).__setitem__(slice(s_, e_), c))]
+                            run(f'{ck}.{vf}', src, node_of, vf, E, follow, follow_exp, {'code': code, 's': s_, 'e': e_})
+    else:
+        fam = FAMILIES[i]
+        if fam.blank_ops:
+            return out
+        n = min(max(fam.minlen, 3), len(fam.pool) - 2)
+        if fam.pick:
+            old, rest = fam.pick(random.Random(7), n)
+            n = len(old)
+        else:
+            old, rest = fam.pool[:n], fam.pool[n:]
+        if n < 2 or not rest:
+            return out
+        src = fam.render(old)
+        want = old[:1] + rest[:1] + old[2:]
+        try:
+            follow_exp = ast.dump(ast.parse(fam.render(want)))
+            ast.parse(src)
+        except SyntaxError:
+            return out
+        field = fam.field
+        good = fam.code(rest[:1])
+        node_of = lambda root: fam.find(root.a).f
+        follow = lambda nd: nd.put_slice(good, 1, 2, field)
+        for code in ('$$', ')(', ['x = (', '1']):
+            E = [('put_slice', lambda nd, c=code: nd.put_slice(c, 1, 2, field)), ('view[a:b]=', lambda nd, c=code: getattr(nd, field).__setitem__(slice(1, 2), c)),
+                 ('insert', lambda nd, c=code: nd.insert(c, 1, field, one=False)), ('put(i)', lambda nd, c=code: nd.put(c, 1, field)),
+                 ('extend', lambda nd, c=code: nd.extend(c, field))]
+            run(fam.name, src, node_of, field, E, follow, follow_exp, {'code': code, 's': 1, 'e': 2})
+    return out
+
+
+def refusal_items():
+    return ([('args', i) for i in range(len(_ARGS_SHAPES))] + [('call', i) for i in range(len(_ARGLIKE_SHAPES))]
+            + [('fam', i) for i in range(len(FAMILIES))])
 
 
 # ---- str NAME indexing of statement views --------------------------------------------------------------------------------
@@ -933,6 +1105,7 @@ def _arglike_exec(kind, field, src, name, a, b, s, e, n, new, exp):
           'put(i)': lambda nd: nd.put(code, s, field)}[name]
     rec = {'fam': f'{kind}.{field}', 'tag': 'interleaved', 'op': name, 'sigop': 'insert-empty-slice' if s == e else name,
            'src': src, 'a': a, 'b': b, 'new': new, 'n': n, 'k': len(new), 's': s, 'e': e, 'layout': '\n' in src}
+    root = None
     try:
         root = _fst(src)
         fn(find(root.a).f)
@@ -948,6 +1121,9 @@ def _arglike_exec(kind, field, src, name, a, b, s, e, n, new, exp):
     except Exception as ex:
         if type(ex).__name__ in ('NodeError', 'ValueError'):
             rec['refused'] = str(ex)[:80]       # ordering refusals ("try the '_args' field", "cannot precede ...") are legitimate
+            if root.src != src or ast.dump(root.a) != ast.dump(ast.parse(src)):     # ... but must leave everything as it was
+                rec['fail'] = 'refusal-changed-tree'
+                rec['detail'] = f'refused ({rec["refused"]}) but source / tree are no longer the original: {root.src[:120]!r}'
         else:
             rec['fail'] = 'raised:' + type(ex).__name__
             rec['detail'] = str(ex)[:200]
@@ -1206,6 +1382,10 @@ def _view_history(fam, old, rest, w0, w1, hist):
             got, exp = ast.dump(root.a), ast.dump(exp_tree)
             if got != exp:
                 rec['fail'], rec['detail'] = 'structure', f'after step {len(done)} {done[-1]}: ' + _first_diff(got, exp)
+                break
+            d = _source_check(root, exp)
+            if d:
+                rec['fail'], rec['detail'] = 'source', f'after step {len(done)} {done[-1]}: ' + d
                 break
             off = 1 if (fam.tag == 'docstr') else 0
             exp_win = [ast.dump(x) for x in _velems(fam, exp_tree)[len(pre):len(pre) + len(W)]]
